@@ -1,4 +1,5 @@
 """C22 - scheduler processing visits each selected item once, in dependency order."""
+import copy
 from collections import Counter
 
 from hypothesis import strategies as st
@@ -24,13 +25,38 @@ SHARDS = {'quick': 8, 'thorough': 16}
 BUDGET = {'quick': 60, 'thorough': 1200}
 
 PROFILE = gen.profile()
+PROFILE['iface_same_module'] = True       # repaired in /repo by 9676bad: generated again (no boost)
 FILTERS = [['proc'], ['proc'], ['proc', 'module'], ['module'], ['proc', 'module', 'typedef'], ['typedef'],
            ['all'], ['proc', 'binding', 'interface'], ['binding']]
+
+
+LATE = 'late-discovered-dependency'
+
+
+def strip_late_dependencies(proj):
+    """
+    Exclusion by construction of the listed finding C22:process-raises:file-of-late-discovered-item-not-parsed:
+    a function called from a procedure of its own module is discovered only after the full parse (the regex
+    frontend does not see inline calls), so the file of a module that only this function imports from is never
+    parsed. Such functions lose their routine-level imports / module-variable uses here. -> number of functions changed
+    """
+    n = 0
+    for m in proj['modules']:
+        same = {s['target'].split('#')[1] for r in m['routines'] for s in r['body']
+                if s['k'] == 'fcall' and s.get('via') == 'same'}
+        for r in m['routines']:
+            if r['kind'] == 'fun' and r['name'] in same and (r['imports'] or r['body']):
+                if any(s['k'] != 'var' for s in r['body']):
+                    raise AssertionError('generator invariant: functions only reference module variables')
+                r['imports'], r['body'] = [], []
+                n += 1
+    return n
 
 
 @st.composite
 def cases(draw):
     proj = draw(gen.projects(PROFILE))
+    stripped = strip_late_dependencies(proj)
     cfg = draw(gen.configs(proj, PROFILE))
     manifest = {
         'filter': draw(st.sampled_from(FILTERS)),
@@ -45,7 +71,10 @@ def cases(draw):
     if set(manifest['filter']) & {'module', 'typedef', 'all'}:
         # caller protocol: files that hold only module/typedef items are fully parsed only with enable_imports
         cfg['config']['default']['enable_imports'] = True
-    return {'proj': proj, 'cfg': cfg, 'manifest': manifest}
+    case = {'proj': proj, 'cfg': cfg, 'manifest': manifest}
+    if stripped:
+        case['excluded'] = {LATE: stripped}
+    return case
 
 
 def _kind_matches(kind, flt):
@@ -162,6 +191,8 @@ def check_case(case, ctx):
                 'excludes-some' if excluded_any else 'excludes-none',
                 'has-ignored' if any(ignored.values()) else 'no-ignored']
     ctx.case(case, nontrivial, classes)
+    for reason, k in sorted(case.get('excluded', {}).items()):
+        ctx.exclude(reason, k)
     if ctx.evaluations % 150 == 1:
         ctx.sample({'manifest': mf, 'config': cfg, 'graph_items': sorted(items),
                     'visits': [(c['hook'], c['item']) for c in seq['calls']][:12]})
@@ -176,7 +207,13 @@ def check_case(case, ctx):
             rootc = run['err']
             while rootc.__cause__ is not None:
                 rootc = rootc.__cause__
-            ctx.fail(f'C22:process-raises:{label}:{exc_bucket(rootc)}', case, repr(rootc)[:300])
+            bucket = exc_bucket(rootc)
+            if bucket == 'RuntimeError@loki/batch/transformation.py:apply_file' and mf['file_graph'] \
+                    and strip_late_dependencies(copy.deepcopy(proj)):
+                # listed finding; never generated by the search (see strip_late_dependencies), replay file only
+                ctx.fail('C22:process-raises:file-of-late-discovered-item-not-parsed', case, repr(rootc)[:300])
+            else:
+                ctx.fail(f'C22:process-raises:{label}:{bucket}', case, repr(rootc)[:300])
             return
     if seq['g1'] != seq['g0']:
         ctx.fail('C22:probe-pass-changes-graph', case, 'graph differs after a read-only probe pass')
@@ -240,13 +277,33 @@ def check_case(case, ctx):
                 if got_t - amb != ref_t - amb:
                     ctx.fail('C22:targets', case, f'{n}: targets {sorted(got_t)} expected {sorted(ref_t)} '
                                                   f'(ambiguous aliases {sorted(amb)})')
-                # blocked / disabled dependencies must never be reported
+                # targets == non-blocked dependencies, decided on the *true* item name of every callee (description
+                # ground truth), both directions; renamed aliases are left to the model above
                 off = [k.lower() for k in (conf.get('disable') or [])] + [k.lower() for k in (conf.get('block') or [])]
-                for s in ix.routine[n][1]['body']:
-                    if s['k'] in ('call',) and s.get('via') not in ('self', 'back') and \
-                            refgraph.match_keys(s['target'], off, patterns=True, parents=True) and \
-                            s['name'].lower() in got_t and s['name'].lower() not in amb:
-                        ctx.fail('C22:targets-contain-blocked', case, f'{n}: {s["name"]} is blocked/disabled')
+                m_, r_ = ix.routine[n]
+                mn_ = m_['name'].lower() if m_ else ''
+                qualified = {o['local'].lower() for sc in ([m_] if m_ else []) + [r_] for imp in sc['imports']
+                             for o in imp['only'] or ()}
+                for s in r_['body']:
+                    if s['k'] not in ('call', 'xcall', 'fcall', 'gcall') or s.get('via') in ('self', 'back'):
+                        continue
+                    nm = s['name'].lower()
+                    tscope, tlocal = s['target'].lower().split('#')
+                    if nm in amb or nm != tlocal:
+                        continue
+                    blocked = bool(refgraph.match_keys(s['target'], off, patterns=True, parents=True))
+                    if blocked != (nm in got_t):
+                        continue
+                    what = 'blocked-callee-listed' if blocked else 'active-callee-missing'
+                    if nm not in qualified and tscope != mn_:
+                        # one root cause (listed): Item._get_children matches a callee that is not imported by name
+                        # in the scope of the *calling* item (free routine called from a module procedure,
+                        # procedure reached through an unqualified USE)
+                        ctx.fail('C22:targets:callee-matched-in-scope-of-caller', case,
+                                 f'{n}: {what}: {s["target"]} with disable+block={off}: targets {sorted(got_t)}')
+                    else:
+                        ctx.fail(f'C22:targets:{what}', case,
+                                 f'{n}: {s["target"]} with disable+block={off}: targets {sorted(got_t)}')
             if c['sub'] is not None:
                 flt2 = set(flt)
                 if 'proc' in flt2:
@@ -288,7 +345,7 @@ def check_case(case, ctx):
         for c in fcalls:
             got_items = c['items'] or []
             infile = {n for n in items if items[n] != 'external' and seq['files'][n] == c['item']}
-            want = set()
+            want, optional = set(), set()
             for n in infile:
                 if ignored[n] and not mf['process_ignored']:
                     continue
@@ -299,17 +356,28 @@ def check_case(case, ctx):
                 scope = n.split('#')[0]
                 if scope and scope != n:
                     want.add(scope)
+                    if ignored.get(scope) and not mf['process_ignored']:
+                        optional.add(scope)    # whether an ignored parent is listed is not specified
                 if '%' in n:
                     want.add(n.split('%')[0])
             dup = sorted(n for n, k in Counter(got_items).items() if k > 1)
             if dup:
                 ctx.fail('C22:file-graph:definition-item-listed-twice', case, f'{c["item"].replace(root, "")}: {dup}')
-            if set(got_items) != want:
+            if set(got_items) - optional != want - optional:
+                missing = want - optional - set(got_items)
+                if not set(got_items) - want and missing and all(
+                        ignored.get(n.split('#')[0]) and not mf['process_ignored'] for n in missing):
+                    # one root cause (listed): Scheduler._get_definition_items drops the definitions of a module
+                    # whose own ModuleItem is ignored, also those that are in the graph and not ignored
+                    ctx.fail('C22:file-graph:items-of-ignored-module-dropped', case,
+                             f'{c["item"].replace(root, "")}: items {sorted(set(got_items))} expected {sorted(want)}')
+                    # (an empty list makes Transformation.apply_file recurse into every unit of the file with the
+                    # file item; the recursion checks below would only repeat this finding)
+                    return
                 ctx.fail('C22:file-graph:items', case, f'{c["item"].replace(root, "")}: items {sorted(set(got_items))} '
                                                        f'expected {sorted(want)}')
-        listed_twice = {n for c in fcalls for n, k in Counter(c['items'] or []).items() if k > 1}
         rec = Counter((c['hook'], c['item']) for c in calls if c['hook'] != 'transform_file')
-        twice = sorted(k for k, v in rec.items() if v > 1 and k[1] not in listed_twice)
+        twice = sorted(k for k, v in rec.items() if v > 1)
         if twice:
             ctx.fail('C22:file-graph:recursion-visits-item-twice', case, str(twice[:4]))
         listed = {n for c in fcalls for n in (c['items'] or [])}
